@@ -5,6 +5,10 @@ package main
 import (
 	"fmt"
 	"math/rand"
+	"os"
+	"os/exec"
+	"path/filepath"
+	"strings"
 
 	"github.com/evolbioinfo/goalign/align"
 )
@@ -64,13 +68,49 @@ func c09(args []string) error {
 			}
 			return nil
 		})
+		// the same request through the command line (goalign sw): score and rows must be those of the library
+		// configured as documented (a lone --match or --mismatch selects match/mismatch scoring with the other default)
+		cliNote := ""
+		if bin := os.Getenv("VERIF_GOALIGN_BIN"); bin != "" && !atg && class == OutOk && r.Intn(10) == 0 &&
+			(sc.usemat || sc.match == 1 || sc.mis == -1 || r.Intn(2) == 0) {
+			tmpd, e := os.MkdirTemp("", "c09cli")
+			if e == nil {
+				inf, logf := filepath.Join(tmpd, "in.fa"), filepath.Join(tmpd, "log.txt")
+				os.WriteFile(inf, []byte(">s1\n"+s1+"\n>s2\n"+s2+"\n"), 0644)
+				args := []string{"sw", "-i", inf, "-l", logf, fmt.Sprintf("--gap-open=%v", sc.op), fmt.Sprintf("--gap-extend=%v", sc.ext)}
+				if !sc.usemat {
+					switch {
+					case sc.mis == -1 && r.Intn(2) == 0:
+						args = append(args, fmt.Sprintf("--match=%v", sc.match))
+					case sc.match == 1 && r.Intn(2) == 0:
+						args = append(args, fmt.Sprintf("--mismatch=%v", sc.mis))
+					default:
+						args = append(args, fmt.Sprintf("--match=%v", sc.match), fmt.Sprintf("--mismatch=%v", sc.mis))
+					}
+				}
+				cmd := exec.Command(bin, args...)
+				cmd.Stdout = nil
+				if cmd.Run() == nil {
+					lb, _ := os.ReadFile(logf)
+					want := fmt.Sprintf("Align Score: %.2f\n", score)
+					if !strings.Contains(string(lb), want) {
+						cliNote = "goalign " + strings.Join(args, " ") + " logged another score than the library: " + want
+						ln = -7
+					}
+				} else {
+					cliNote = "goalign " + strings.Join(args, " ") + " failed"
+					ln = -7
+				}
+				os.RemoveAll(tmpd)
+			}
+		}
 		z2 := func(f float64) string { return coqZ(int(f * 2)) }
 		term := fmt.Sprintf("mk %s %s %s %s %s %s %s %s %s %s %s %s %s %s %s %s %s %s %s %s %s %s",
 			coqBool(atg), coqBool(sc.usemat), z2(sc.match), z2(sc.mis), z2(sc.op), z2(sc.ext), coqStr(s1), coqStr(s2),
 			coqBool(class != OutOk), z2(score), coqStr(r1), coqStr(r2), coqZ(st1), coqZ(st2), coqZ(en1), coqZ(en2),
 			coqZ(nm), coqZ(nmm), coqZ(ng), coqZ(ln), coqStr(q1.Sequence()), coqStr(q2.Sequence()))
 		w.add(term, map[string]interface{}{"op": "Alignment", "atg": atg, "s1": s1, "s2": s2, "scheme": fmt.Sprintf("%+v", sc), "class": class,
-			"score": score, "row1": r1, "row2": r2, "starts": []int{st1, st2}, "ends": []int{en1, en2}, "counts": []int{nm, nmm, ng, ln}, "tag": tag})
+			"score": score, "row1": r1, "row2": r2, "starts": []int{st1, st2}, "ends": []int{en1, en2}, "counts": []int{nm, nmm, ng, ln}, "tag": tag, "cli": cliNote})
 		stats[tag+":"+class]++
 	}
 
